@@ -11,6 +11,22 @@ class Fmt:
         s = self.f(t, 0)
         return s if len(s) <= self.maxlen else s[: self.maxlen] + "..."
 
+    def field_name(self, base, i):
+        return str(i)
+
+    def poly(self, fz, d):
+        parts = []
+        for m, c in fz:
+            fs = [self.f(a, d + 1) + ("^%d" % p if p != 1 else "") for a, p in m]
+            if c == 1 and fs:
+                s = "*".join(fs)
+            elif c == -1 and fs:
+                s = "-" + "*".join(fs)
+            else:
+                s = "*".join([str(c)] + fs)
+            parts.append(s)
+        return " + ".join(parts) if parts else "0"
+
     def bdd(self, n, d=0):
         return self.eng.bdd.to_str(n, lambda a: self.f(a, d + 1))
 
@@ -28,7 +44,29 @@ class Fmt:
         if k == "b":
             return "[" + self.bdd(t[1], d) + "]"
         if k == "field":
+            if len(t) == 3:
+                return "%s.%s" % (F(t[1]), self.field_name(t[1], t[2]))
             return "%s.%s" % (F(t[1]), t[3] if t[3] is not None else t[2])
+        if k == "poly":
+            return "(" + self.poly(t[1], d) + ")"
+        if k == "Z":
+            return self.poly(t[1], d) + " == 0"
+        if k == "PP":
+            return "PP{" + self.poly(t[1], d) + "} == 1"
+        if k == "vs":
+            return "Sum_i(" + " * ".join((F(a) + ("^%d" % p if p != 1 else "")) for a, p in t[1]) + ")"
+        if k == "E":
+            return F(t[1]) + "[i]"
+        if k == "I":
+            return "i"
+        if k == "V":
+            return "vec_i(%s; n=%s)" % (F(t[1]), t[2])
+        if k == "enc":
+            return "enc(%s)" % F(t[1])
+        if k == "any":
+            return "any_i(%s)" % F(t[1])
+        if k == "mml":
+            return "mml{" + ", ".join("(%s, %s)" % (F(a), F(b)) if isinstance(a, tuple) and len(p) == 2 else F(p) for p in t[1] for a, b in [p if len(p) == 2 else (p, p)]) + "}"
         if k == "vfield":
             return "(%s as v%d).%d" % (F(t[1]), t[2], t[3])
         if k == "at":
